@@ -214,7 +214,7 @@ func runC13(r *Run) {
 			r.Fail("C13.3", c.fn, "", "method not found")
 			continue
 		}
-		a := w.A(fn)
+		a := w.AU(fn)
 		for _, ret := range a.Returns() {
 			v := a.sh.Of(ret.Results[0])
 			if v.K != "lit" {
@@ -265,7 +265,7 @@ func runC13(r *Run) {
 	// ---------- C13.6 double-sign detection over per-block signer sets
 	r.Rule("C13.6", "Simple scheme ValidateFinalizedProof: every per-message signer set is intersected with the running union of all sets seen so far (any overlap => not unique) and then added to that union")
 	if fn := w.Fn("gcrypto.SimpleCommonMessageSignatureProofScheme.ValidateFinalizedProof"); fn != nil {
-		a := w.A(fn)
+		a := w.AU(fn)
 		var union, inter, anyc []ssa.Instruction
 		for _, c := range a.CallsTo("bitset.BitSet.InPlaceUnion") {
 			if strings.HasPrefix(a.sh.Of(CallArg(c, 1)).String(), "rv(") && inMapRangeLoop(c) {
@@ -296,13 +296,12 @@ func runC13(r *Run) {
 			det += fmt.Sprintf("; accumulator %s copied before intersecting: %v; same range: %v", accu, okCopy, sameMap)
 			// overlap => returns false
 			e, _ := a.IfEdgesB("@bitset.BitSet.Any($s)", true, Bind{"$s": a.sh.Of(CallArg(inter[0], 0))}, nil)
-			okRet := false
+			// from the overlap edge every path ends in a return whose uniqueness result is false
+			// (directly, or through a flag cleared on that path: evaluated path-sensitively)
+			okRet := len(e) > 0
 			for _, ed := range e {
-				blk := ed.From.Succs[ed.Succ]
-				for _, in := range blk.Instrs {
-					if ret, isRet := in.(*ssa.Return); isRet && a.sh.Of(ret.Results[1]).String() == "false" {
-						okRet = true
-					}
+				if !allReturnsAfterEdge(ed, 1, "false") {
+					okRet = false
 				}
 			}
 			ok = ok && okRet
@@ -574,7 +573,7 @@ func mergeFlags(r *Run) {
 			r.Fail("C13.4", name, "", "method not found")
 			continue
 		}
-		a := w.A(fn)
+		a := w.AU(fn)
 		// the result variable: an Alloc of type SignatureProofMergeResult
 		var res *ssa.Alloc
 		a.Instrs(func(in ssa.Instruction) {
@@ -769,4 +768,58 @@ func usedAsIndex(v ssa.Value) bool {
 		return false
 	}
 	return down(up(v))
+}
+
+// allReturnsAfterEdge: every path that starts by taking edge ed ends in a Return
+// whose result idx is the boolean constant want, where a phi result is
+// evaluated with the constants it received along that very path.
+func allReturnsAfterEdge(ed Edge, idx int, want string) bool {
+	type st struct {
+		b *ssa.BasicBlock
+		f pathFacts
+	}
+	seen := map[string]bool{}
+	ok, nret := true, 0
+	var walk func(from, b *ssa.BasicBlock, f pathFacts)
+	walk = func(from, b *ssa.BasicBlock, f pathFacts) {
+		nf := f.enter(from, b)
+		key := fmt.Sprintf("%d|%s", b.Index, nf.key())
+		if seen[key] || !ok {
+			return
+		}
+		seen[key] = true
+		last := b.Instrs[len(b.Instrs)-1]
+		if ret, isRet := last.(*ssa.Return); isRet {
+			nret++
+			if idx >= len(ret.Results) {
+				ok = false
+				return
+			}
+			switch v := ret.Results[idx].(type) {
+			case *ssa.Const:
+				if v.Value == nil || v.Value.ExactString() != want {
+					ok = false
+				}
+			case *ssa.Phi:
+				if nf[v] != want {
+					ok = false
+				}
+			default:
+				ok = false
+			}
+			return
+		}
+		if _, isPanic := last.(*ssa.Panic); isPanic {
+			return
+		}
+		if d := nf.decide(b); d >= 0 {
+			walk(b, b.Succs[d], nf)
+			return
+		}
+		for _, s := range b.Succs {
+			walk(b, s, nf)
+		}
+	}
+	walk(ed.From, ed.From.Succs[ed.Succ], pathFacts{})
+	return ok && nret > 0
 }
